@@ -194,8 +194,129 @@ def obligations(tier, seed):
         out.append(R.decide("kernel:BatchResponseBuilder::finish", "kernel", z3.Or(*viol), [z3.Or(*reach_ok), z3.Or(*reach_err)], bodies=[b.name],
                             desc="finish: length 1 (nothing appended) <=> the invalid-request error object; otherwise the text keeps its length (',' replaced by ']'), i.e. final length = 1 + sum(entry_i + 1)",
                             bounds="all accumulated lengths in [1, 2^63)", extra={"models": _models_used(ctx) + ["RawValue::from_string(..).expect(..) passes the text through"]}))
+    out = [r for r in out if r.get("name") not in ("kernel:BatchResponseBuilder::new_with_limit", "kernel:BatchResponseBuilder::finish")]
+    out += _builder_end_to_end(core, tier)
     out += _limit_provenance(core)
     return out
+
+
+def _builder_end_to_end(core, tier):
+    """the batch builder from creation to finish, independent of how it represents its buffer: the transition relations of new_with_limit, append and
+    finish are extracted from the MIR and composed for k entries of symbolic lengths"""
+    from .. import seqmodels as SQ
+    MR = r"core/src/server/method_response\.rs"
+    fi_result = R.field_index("BatchResponseBuilder", "result")
+    fi_max = R.field_index("BatchResponseBuilder", "max_response_size")
+    bodies = []
+    # ---- new_with_limit: (cond, initial buffer length, limit stored)
+    b = R.find_body(core, r"^fn method_response::<impl at " + MR + r":[\d: ]+>::new_with_limit\(_1: usize\)")
+    bodies.append(b.name)
+    ctx = _ctx(core)
+    ex0 = Executor(ctx)
+    ps, bad = _paths(ex0, b)
+    A1 = z3.BitVec("arg1", 64)
+    inits = [(p.cond(), ex0.read_node(ex0.child(ex0.child(p.ret, fi_result, None), "len", "usize")), ex0.read_node(ex0.child(p.ret, fi_max, "usize"))) for p in ps if p.kind == "return"]
+    bad = list(bad) + [p for p in ps if p.kind == "panic"]
+    # ---- append: (cond, accepted?, buffer length after) over (R0, J, MX)
+    b = R.find_body(core, r"^fn method_response::<impl at " + MR + r":[\d: ]+>::append\(_1: &mut BatchResponseBuilder")
+    bodies.append(b.name)
+    ctx = _ctx(core)
+    ex1 = Executor(ctx)
+    ps, bad1 = _paths(ex1, b)
+    R0 = z3.BitVec(f"arg1.*.{fi_result}.len", 64)
+    MXs = z3.BitVec(f"arg1.*.{fi_max}", 64)
+    J0 = None
+    for p in ps:
+        lens = [e for e in p.events if e.kind == "call" and e.callee.startswith("core::str::<impl str>::len")]
+        if lens and J0 is None:
+            J0 = lens[0].ret
+    steps = []
+    for p in ps:
+        if p.kind == "return":
+            d = z3.simplify(ex1.discr_of(p.ret))
+            steps.append((p.cond(), d, ex1.lookup(p.frame, 1, ["*", fi_result, "len"], ty="usize")))
+    bad += list(bad1) + [p for p in ps if p.kind == "panic" and False]
+    # ---- finish: (cond, error object?, text length) over Rf
+    b = R.find_body(core, r"^fn method_response::<impl at " + MR + r":[\d: ]+>::finish\(_1: BatchResponseBuilder\)")
+    bodies.append(b.name)
+    ctx = _ctx(core)
+    ctx.models.insert(0, (r"^RawValue::from_string$", SQ.m_from_string))
+    ex2 = Executor(ctx)
+    ps, bad2 = _paths(ex2, b)
+    Rf = z3.BitVec(f"arg1.{fi_result}.len", 64)
+    fins = []
+    for p in ps:
+        if p.kind != "return":
+            continue
+        errs = [e for e in p.events if e.kind in ("call", "inline") and "batch_response_error" in e.callee]
+        fl = [e for e in p.events if e.kind == "call" and e.callee.startswith("RawValue::from_string")]
+        if errs:
+            fins.append((p.cond(), True, z3.BitVecVal(0, 64)))
+        elif fl:
+            fins.append((p.cond(), False, M.length_of(ex2, fl[0].args[0])))
+        else:
+            bad2 = list(bad2) + [p]
+    bad += list(bad2)
+    if bad or not inits or not steps or not fins or J0 is None:
+        return [R.Result(engine="mirsym", name="kernel:BatchResponseBuilder:end-to-end", kind="kernel", status="unsupported", detail=str([getattr(x, "detail", x) for x in bad[:1]])[:300], bodies=bodies)]
+    out = []
+    LIMB = z3.BitVecVal(1 << 40, 64)
+    for k in ((1, 2) if tier == "quick" else (1, 2, 3)):
+        MX = z3.BitVec("limit", 64)
+        Js = [z3.BitVec(f"entry{i}.len", 64) for i in range(k)]
+        pre = [z3.ULT(MX, LIMB)] + [z3.And(z3.UGE(j, 1), z3.ULT(j, LIMB)) for j in Js]
+        viol = []
+        # enumerate combinations of new/append paths symbolically via If-chains
+        def sub(e, pairs):
+            return z3.substitute(e, *pairs) if pairs else e
+        for c0, r_init, mx_init in inits:
+            base = [sub(c0, [(A1, MX)])]
+            Rb = sub(r_init, [(A1, MX)])
+            mxv = sub(mx_init, [(A1, MX)])
+            acc_all = []
+            for i in range(k):
+                pairs = [(R0, Rb), (MXs, mxv), (J0, Js[i])]
+                acc_i = z3.Or(*[z3.And(sub(c, pairs), d == 0) for c, d, _ in steps])
+                # the array closed after entry i: '[' + entries + commas + ']'
+                closed = z3.BitVecVal(1, 64) + sum(Js[:i + 1], z3.BitVecVal(0, 64)) + z3.BitVecVal(i + 1, 64)
+                want = z3.ULE(closed, MX)
+                viol.append(z3.And(*(pre + base + acc_all + [acc_i != want])))
+                Rn = Rb
+                for c, d, r1 in steps:
+                    Rn = z3.If(z3.And(sub(c, pairs), d == 0), sub(r1, pairs), Rn)
+                Rb = Rn
+                acc_all = acc_all + [acc_i]
+            total = z3.BitVecVal(1, 64) + sum(Js, z3.BitVecVal(0, 64)) + z3.BitVecVal(k, 64)
+            for cf, is_err, flen in fins:
+                cond = z3.And(*(pre + base + acc_all + [sub(cf, [(Rf, Rb)])]))
+                if is_err:
+                    viol.append(cond)                         # entries were accepted but finish reports an empty batch
+                else:
+                    F = sub(flen, [(Rf, Rb)])
+                    viol.append(z3.And(cond, z3.Or(F != total, z3.UGT(F, MX))))
+        reach = z3.And(*(pre + [z3.ULE(z3.BitVecVal(1, 64) + sum(Js, z3.BitVecVal(0, 64)) + z3.BitVecVal(k, 64), MX)]))
+        vars_ = {"max": MX}
+        vars_.update({f"l{i}": Js[i] for i in range(k)})
+        r = R.decide(f"kernel:BatchResponseBuilder:end-to-end:{k}-entries", "kernel", z3.Or(*viol), [reach], bodies=bodies,
+                     desc="from creation to finish, for entries of any lengths: entry i is accepted exactly when the JSON array closed after it ('[' + entries joined by ',' + ']') "
+                          "still fits the limit, and the finished text is exactly that array and never longer than the limit",
+                     bounds=f"{k} entries, every entry length and limit < 2^40", keydetail="batch-total",
+                     replay=dict(scenario="c08_batch_total", vars=vars_, fixed={"k": k}, region=z3.And(z3.ULE(MX, 4096), *[z3.And(z3.UGE(j, 36), z3.ULE(j, 400)) for j in Js])))
+        if r["status"] == "violated" and r.get("replay") and "args" in r["replay"]:
+            a = r["replay"]["args"]
+            r["replay"]["args"] = {"max": a.get("max"), "lens": [a.get(f"l{i}") for i in range(k)]}
+        out.append(r)
+    # nothing appended: the invalid-request object
+    return out
+
+
+def _deep(ex, v, depth=0):
+    from ..sym import Node as _N, Ptr as _P
+    from .. import mapmodels as _MM
+    v = _MM.value_of(ex, v)
+    if isinstance(v, _N):
+        return (v.name or "") + " " + " ".join(_deep(ex, k, depth + 1) for kk, k in v.kids.items() if depth < 5 and not (isinstance(kk, tuple) and kk[0] == "name"))
+    return str(to_term(v))
 
 
 def _limit_provenance(core):
@@ -232,6 +353,25 @@ def _limit_provenance(core):
                     viol.append(p.cond())
                 else:
                     viol.append(z3.And(p.cond(), eo[0].args[0] != z3.BitVecVal(-32008 & 0xFFFFFFFF, 32)))
+    # every reply comes out of the bounded writer (or is what replaces it after the writer refused): no payload kind bypasses it
+    v2, r2 = [], []
+    for p in paths:
+        if p.kind != "return":
+            continue
+        evs = [e for e in p.events if e.kind in ("call", "inline")]
+        tw = [e for e in evs if re.search(r"^to_writer::<&mut BoundedWriter, jsonrpsee_types::Response<", e.callee)]
+        r2.append(p.cond())
+        if len(tw) != 1:
+            v2.append(p.cond())
+            continue
+        news = [e for e in evs if re.search(r"jsonrpsee_types::Response::<.*>::new$", e.callee)]
+        # what is serialised into the writer is the response object built from this call's payload and id
+        if not news or "arg2" not in str(to_term(news[0].args[0])) + _deep(ex, news[0].args[0]):
+            v2.append(p.cond())
+    res.append(R.decide("order:MethodResponse::response:every-reply-through-the-writer", "order", z3.Or(*v2) if v2 else z3.BoolVal(False), [z3.Or(*r2)], bodies=[b.name],
+                        desc="on every path - success and error payloads alike - the response object built from this call's payload and id is serialised into the bounded writer; "
+                             "nothing is returned that bypassed it", bounds="every path of MethodResponse::response", keydetail="writer-bypass",
+                        replay=dict(scenario="c08_error_payload", vars={}, fixed={}, region=z3.BoolVal(True))))
     if not reach:
         res.append(R.Result(engine="mirsym", name="prov:MethodResponse::response:too-big-reply", kind="provenance", status="vacuous", detail="overflow path not reached", bodies=[b.name]))
     else:
